@@ -27,7 +27,8 @@ class D(RenderDriver):
     )
     nt_floor = {"quick": 150, "thorough": 4000}
     feature_floors = {"dash_odd": 40, "dash_even": 40, "dash_offset": 40, "stroke_inherited_from_group": 100, "nonuniform_scale": 30, "skew": 15,
-                      "multi_subpath": 50, "translucent_single_piece": 50, "use_of_stroked": 30, "stroke_prop_style": 100}
+                      "multi_subpath": 50, "translucent_single_piece": 50, "use_of_stroked": 30, "stroke_prop_style": 100,
+                      "judged.dash_odd": 30, "judged.dash_even": 30, "judged.dash_offset": 30}
 
     def gen_doc(self, rng):
         text, f, root = gd.stroke_doc(rng, hairpins=rng.random() < 0.05)
